@@ -30,10 +30,11 @@ try:
     for p in props:
         t0 = time.time()
         c = subprocess.run(["/verif/check", p, "--tier", tier, "--no-evidence"] + extra, capture_output=True, text=True, cwd="/verif", env=env)
-        viol = [l for l in (c.stdout + c.stderr).splitlines() if l.startswith("VIOLATION") or l.startswith("violation ") or "HARNESS ERROR" in l or "DETERMINISM" in l or "BUILD FAILED" in l]
-        res[p] = {"exit": c.returncode, "wall_s": round(time.time() - t0, 1), "lines": viol[:8]}
+        alll = (c.stdout + c.stderr).splitlines()
+        viol = [l for l in alll if l.startswith("violation ")][:6] + [l for l in alll if l.startswith("VIOLATION")][:2] + [l for l in alll if "HARNESS ERROR" in l or "DETERMINISM" in l or "BUILD FAILED" in l][:3]
+        res[p] = {"exit": c.returncode, "wall_s": round(time.time() - t0, 1), "lines": viol[:11]}
         print(p, "exit", c.returncode, "in %.0fs" % (time.time() - t0))
-        for l in viol[:8]:
+        for l in viol[:11]:
             print("   ", l[:400])
 finally:
     if REPO == "/repo":
